@@ -114,5 +114,67 @@ class Minimiser:
                     if chunk == 1:
                         break
                     n = min(len(lines), n * 2)
+        # (6) shrink API-built sets: languages, captions, nodes, layouts, styles
+        for i in range(len(ops)):
+            if ops[i]["kind"] != "build":
+                continue
+
+            def variants(rec):
+                for li in range(len(rec["langs"])):
+                    if len(rec["langs"]) > 1:
+                        r = copy.deepcopy(rec)
+                        del r["langs"][li]
+                        yield r
+                for li, l in enumerate(rec["langs"]):
+                    for ci in range(len(l["captions"])):
+                        if len(l["captions"]) > 1:
+                            r = copy.deepcopy(rec)
+                            del r["langs"][li]["captions"][ci]
+                            yield r
+                    for ci, c in enumerate(l["captions"]):
+                        for ni in range(len(c["nodes"])):
+                            if len(c["nodes"]) > 1:
+                                r = copy.deepcopy(rec)
+                                del r["langs"][li]["captions"][ci]["nodes"][ni]
+                                yield r
+                        for ni, n in enumerate(c["nodes"]):
+                            if n.get("layout") is not None:
+                                r = copy.deepcopy(rec)
+                                r["langs"][li]["captions"][ci]["nodes"][ni]["layout"] = None
+                                yield r
+                        if c.get("layout") is not None:
+                            r = copy.deepcopy(rec)
+                            r["langs"][li]["captions"][ci]["layout"] = None
+                            yield r
+                        if c.get("style", "default") != "default":
+                            r = copy.deepcopy(rec)
+                            r["langs"][li]["captions"][ci]["style"] = "default"
+                            yield r
+                    if l.get("layout") is not None:
+                        r = copy.deepcopy(rec)
+                        r["langs"][li]["layout"] = None
+                        yield r
+                if rec.get("layout") is not None:
+                    r = copy.deepcopy(rec)
+                    r["layout"] = None
+                    yield r
+                if rec.get("styles", "default") != "default":
+                    r = copy.deepcopy(rec)
+                    r["styles"] = "default"
+                    yield r
+
+            progress = True
+            while progress and time.time() < self.deadline:
+                progress = False
+                for r in variants(ops[i]["recipe"]):
+                    if time.time() > self.deadline:
+                        break
+                    cand = copy.deepcopy(ops)
+                    cand[i]["recipe"] = r
+                    got = self.attempt(cand)
+                    if got is not None:
+                        ops = got
+                        progress = True
+                        break
         self.plan["ops"] = ops
         return self.plan, self.v
